@@ -1024,6 +1024,20 @@ fn itera_expected(t: &[&str]) -> Option<String> {
             format!("ok {:x} none", h)
         }
         "hint" => "ok 1".to_string(),
+        "vcount" => format!("ok {}", left),
+        "vlast" | "vmax" => format!("ok {}", show(if left > 0 { iter_item(n, total - 1) } else { None })),
+        "vmin" => format!("ok {}", show(if left > 0 { iter_item(n, a) } else { None })),
+        "skipcount" => format!("ok {}", left.saturating_sub(b)),
+        "vfold" => {
+            let mut sum = 0u64;
+            let mut p = a;
+            while p < total {
+                let key = iter_item(n, p).unwrap().w.iter().fold(0u64, |x, w| x.wrapping_mul(31).wrapping_add(*w));
+                sum = sum.wrapping_add(key);
+                p += 1;
+            }
+            format!("ok {} {:x} {} {}", left, sum, show(if left > 0 { iter_item(n, a) } else { None }), show(if left > 0 { iter_item(n, total - 1) } else { None }))
+        }
         _ => return None,
     })
 }
